@@ -13,7 +13,7 @@
 //! exactly the one invocation of the expected handler.
 
 use bytes::Bytes;
-use http_body_util::{BodyExt, Full};
+use http_body_util::{BodyExt, StreamBody};
 use jrv::jgen;
 use jrv::memsrv::{MemServer, Recv};
 use jrv::report::*;
@@ -1084,13 +1084,67 @@ impl<S> tower::Layer<S> for MemLayer {
 	}
 }
 
+type Chunked = StreamBody<futures_util::stream::Iter<std::vec::IntoIter<Result<http_body::Frame<Bytes>, std::convert::Infallible>>>>;
+
+pub static HTTP_BODIES_IN_SEVERAL_FRAMES: std::sync::atomic::AtomicU64 = std::sync::atomic::AtomicU64::new(0);
+pub static HTTP_FRAME_STARTS_AT_BLANK: std::sync::atomic::AtomicU64 = std::sync::atomic::AtomicU64::new(0);
+pub static HTTP_FRAME_STARTS_INSIDE_CHARACTER: std::sync::atomic::AtomicU64 = std::sync::atomic::AtomicU64::new(0);
+
+/// A body travels in whatever frames the transport cuts it into. The cuts are a function of the bytes (so that a case
+/// replays): none for a quarter of the bodies; otherwise up to three, preferably right before a blank or in the middle of
+/// a multi-byte character, now and then with an empty frame in between.
+fn chunked(bytes: Bytes) -> Chunked {
+	use std::sync::atomic::Ordering::Relaxed;
+	let mut h: u64 = 0xcbf29ce484222325;
+	for b in bytes.iter() {
+		h = (h ^ *b as u64).wrapping_mul(0x100000001b3);
+	}
+	let mut cuts: Vec<usize> = Vec::new();
+	if h % 4 != 0 && bytes.len() > 1 {
+		let blanks: Vec<usize> = (1..bytes.len()).filter(|p| bytes[*p] == b' ').collect();
+		let inside: Vec<usize> = (1..bytes.len()).filter(|p| bytes[*p] & 0xC0 == 0x80).collect();
+		let mut x = h >> 2;
+		for _ in 0..(1 + (h >> 8) % 3) {
+			x = x.wrapping_mul(6364136223846793005).wrapping_add(1442695040888963407);
+			let pick = (x >> 33) as usize;
+			let at = match (x >> 29) % 4 {
+				0 | 1 if !blanks.is_empty() => blanks[pick % blanks.len()],
+				2 if !inside.is_empty() => inside[pick % inside.len()],
+				0 if !inside.is_empty() => inside[pick % inside.len()],
+				_ => 1 + pick % (bytes.len() - 1),
+			};
+			cuts.push(at);
+		}
+		cuts.sort();
+		cuts.dedup();
+		HTTP_BODIES_IN_SEVERAL_FRAMES.fetch_add(1, Relaxed);
+	}
+	let mut frames = Vec::new();
+	let mut from = 0;
+	for c in cuts.iter().copied().chain(std::iter::once(bytes.len())) {
+		if from > 0 {
+			if bytes[from] == b' ' {
+				HTTP_FRAME_STARTS_AT_BLANK.fetch_add(1, Relaxed);
+			} else if bytes[from] & 0xC0 == 0x80 {
+				HTTP_FRAME_STARTS_INSIDE_CHARACTER.fetch_add(1, Relaxed);
+			}
+			if (h >> 16) % 5 == 0 {
+				frames.push(Ok(http_body::Frame::data(Bytes::new())));
+			}
+		}
+		frames.push(Ok(http_body::Frame::data(bytes.slice(from..c))));
+		from = c;
+	}
+	StreamBody::new(futures_util::stream::iter(frames))
+}
+
 /// Replaces the socket backend of the HTTP client: every request goes to a fresh per-connection tower service of the
 /// in-memory server. The request text is kept (the wire as the server sees it).
 #[derive(Clone)]
 struct MemSvc(MemLayer);
 
 impl tower::Service<HttpRequest> for MemSvc {
-	type Response = HttpResponse<Full<Bytes>>;
+	type Response = HttpResponse<Chunked>;
 	type Error = transport::Error;
 	type Future = Pin<Box<dyn Future<Output = Result<Self::Response, Self::Error>> + Send>>;
 
@@ -1105,11 +1159,11 @@ impl tower::Service<HttpRequest> for MemSvc {
 			let (parts, body) = req.into_parts();
 			let bytes = body.collect().await.map_err(|e| transport::Error::Url(format!("harness: request body: {e}")))?.to_bytes();
 			l.seen.lock().unwrap().push(serde_json::from_slice(&bytes).unwrap_or_else(|_| json!({"unparsable": String::from_utf8_lossy(&bytes)})));
-			let req = http::Request::from_parts(parts, Full::new(bytes));
+			let req = http::Request::from_parts(parts, chunked(bytes));
 			let resp = tower::Service::call(&mut svc, req).await.map_err(|e| transport::Error::Url(format!("harness: service: {e}")))?;
 			let (parts, body) = resp.into_parts();
 			let bytes = body.collect().await.map_err(|e| transport::Error::Url(format!("harness: response body: {e}")))?.to_bytes();
-			Ok(http::Response::from_parts(parts, Full::new(bytes)))
+			Ok(http::Response::from_parts(parts, chunked(bytes)))
 		})
 	}
 }
@@ -2114,6 +2168,12 @@ fn main() {
 		}
 	}
 	ev.set("declared_methods", json!(METHODS.len()));
+	{
+		use std::sync::atomic::Ordering::Relaxed;
+		ev.count("http_bodies_cut_into_several_frames", HTTP_BODIES_IN_SEVERAL_FRAMES.load(Relaxed));
+		ev.count("http_frames_starting_at_a_blank", HTTP_FRAME_STARTS_AT_BLANK.load(Relaxed));
+		ev.count("http_frames_starting_inside_a_character", HTTP_FRAME_STARTS_INSIDE_CHARACTER.load(Relaxed));
+	}
 	let mut inconclusive = None;
 	if !harness_errors.is_empty() {
 		inconclusive = Some(format!("{} harness error(s), first: {}", harness_errors.len(), harness_errors[0]));
